@@ -1,0 +1,7 @@
+//go:build !verif
+
+package json
+
+func verifEnter(p *parserState)                                                         {}
+func verifExit(p *parserState, q string, lraw, parsed, inspected, first int, qsat bool) {}
+func verifLvl(lvl int)                                                                  {}
